@@ -24,6 +24,7 @@ func VH_C12_updown_sched() {
 		return string(w.buf)
 	}
 	base := run()
+	vNumCPU(1 + vChoice("ncpu", vParam("NCPU")+1))
 	vSchedExplore(vParam("DEV"))
 	vAssert("C12.updown.output-independent-of-schedule", run() == base)
 }
